@@ -27,6 +27,12 @@ type c10cSynth struct {
 	Hmtx   []byte   `json:"hmtx"`
 	NLongV int      `json:"nlong_v"`
 	Vmtx   []byte   `json:"vmtx,omitempty"` // nil: no vhea/vmtx
+	// vertical metrics cases (c10vm)
+	Vorg   []byte `json:"vorg,omitempty"`
+	Os2    []byte `json:"os2,omitempty"`
+	Asc    int    `json:"asc,omitempty"` // hhea ascender / descender
+	Desc   int    `json:"desc,omitempty"`
+	NoGlyf bool   `json:"no_glyf,omitempty"`
 }
 type c10cInput struct {
 	Kind  string     `json:"kind"` // font | synth | f32
@@ -107,6 +113,8 @@ func c10cSynthFile(s *c10cSynth) []byte {
 	hhea := make([]byte, 36)
 	copy(hhea[0:], []byte{0, 1, 0, 0})
 	copy(hhea[34:], be16(s.NLongH))
+	copy(hhea[4:], be16(s.Asc&0xFFFF))
+	copy(hhea[6:], be16(s.Desc&0xFFFF))
 	var glyf, loca bytes.Buffer
 	for _, r := range s.Recs {
 		binary.Write(&loca, binary.BigEndian, uint32(glyf.Len()))
@@ -122,6 +130,16 @@ func c10cSynthFile(s *c10cSynth) []byte {
 		copy(vhea[0:], []byte{0, 1, 0x10, 0})
 		copy(vhea[34:], be16(s.NLongV))
 		tabs["vhea"], tabs["vmtx"] = vhea, s.Vmtx
+	}
+	if s.Vorg != nil {
+		tabs["VORG"] = s.Vorg
+	}
+	if s.Os2 != nil {
+		tabs["OS/2"] = s.Os2
+	}
+	if s.NoGlyf {
+		delete(tabs, "glyf")
+		delete(tabs, "loca")
 	}
 	return c10BuildSfnt(tabs)
 }
@@ -189,6 +207,7 @@ func c10cClosure(rawOf func(int) ([]byte, bool), roots []int) map[int][]byte {
 
 func c10cGen(r *vh.Rand, tier string, n int, emit func(any)) {
 	c10cGenF32(r, tier, emit)
+	c10cGenBudget(r, tier, emit)
 	nSynth := 40
 	if tier == "search" {
 		nSynth = 150
@@ -476,6 +495,89 @@ func c10cGenSynth(r *vh.Rand) *c10cSynth {
 		s.Vmtx = metrics(s.NLongV)
 	}
 	return s
+}
+
+// c10cGenBudget: synthetic fonts whose composites visit just below / exactly / just above maxCompositeEdges = 1024
+// glyph records.  Glyph 0 is empty (a visit that adds no point), glyph 1 a one-point simple glyph (a visit that shows).
+func c10cGenBudget(r *vh.Rand, tier string, emit func(any)) {
+	be16 := func(v int) []byte { return []byte{byte(v >> 8), byte(v & 0xFF)} }
+	point := func(x, y int) []byte { // one contour, one on-curve point
+		rec := append(be16(1), be16(x)...)
+		rec = append(rec, be16(y)...)
+		rec = append(rec, be16(x)...)
+		rec = append(rec, be16(y)...)
+		rec = append(rec, 0, 0, 0, 0, 1)
+		rec = append(rec, be16(x)...)
+		return append(rec, be16(y)...)
+	}
+	composite := func(targets []int) []byte {
+		rec := append(be16(0xFFFF), 0, 0, 0, 0, 0, 0, 0, 0)
+		for i, t := range targets {
+			flags := 2 // ARGS_ARE_XY_VALUES, byte arguments
+			if i+1 < len(targets) {
+				flags |= 0x20
+			}
+			rec = append(rec, be16(flags)...)
+			rec = append(rec, be16(t)...)
+			rec = append(rec, byte(i%7), byte(i%5))
+		}
+		return rec
+	}
+	metrics := func(n int) []byte {
+		var b []byte
+		for g := 0; g < n; g++ {
+			b = append(b, be16(500+g)...)
+			b = append(b, be16(g)...)
+		}
+		return b
+	}
+	mk := func(recs [][]byte, root int) {
+		s := &c10cSynth{Upem: 1000, Recs: recs, NLongH: len(recs), Hmtx: metrics(len(recs))}
+		emit(c10cInput{Kind: "synth", Synth: s, Gids: []int{root}})
+	}
+	// wide fan-out: one composite with n components; the components around position 1024 are the visible ones
+	fans := []int{1023, 1024, 1025, 1030}
+	if tier != "quick" {
+		fans = append(fans, 1, 2, 1000, 1022, 1026, 1027, 2000)
+	}
+	for _, n := range fans {
+		targets := make([]int, n)
+		for i := range targets {
+			if i >= 1018 || r.Chance(1) {
+				targets[i] = 1
+			}
+		}
+		mk([][]byte{nil, point(10, 20), composite(targets)}, 2)
+	}
+	// nested: glyph 3 = a components glyph 2; glyph 2 = b empty components with the visible one at a random place
+	nests := 3
+	if tier != "quick" {
+		nests = 40
+	}
+	for k := 0; k < nests; k++ {
+		b := r.Range(3, 40)
+		a := 1024/(b+2) + r.Range(-1, 2)
+		if a < 1 {
+			a = 1
+		}
+		inner := make([]int, b+1)
+		inner[r.Intn(b+1)] = 1
+		outer := make([]int, a)
+		for i := range outer {
+			outer[i] = 2
+		}
+		mk([][]byte{nil, point(-3, 7), composite(inner), composite(outer)}, 3)
+	}
+	// binary tree of depth d: 2^(d+1)-1 visits; d = 9 stays below the budget, d = 10 is cut (thorough only: 512+ points)
+	if tier != "quick" {
+		for _, d := range []int{9, 10, 11} {
+			recs := [][]byte{nil, point(1, 1)}
+			for l := 0; l < d; l++ {
+				recs = append(recs, composite([]int{len(recs) - 1, len(recs) - 1}))
+			}
+			mk(recs, len(recs)-1)
+		}
+	}
 }
 
 // c10cSmall: the synthetic font loads and no glyph resolves to more than 250 points (nested composites multiply)
